@@ -210,22 +210,34 @@ Definition add_column (c : column) (g : geo) : geo :=
 Definition add_con (c : str * str) (g : geo) : geo :=
   if con_mem c (g_cons g) then g else with_cons (g_cons g ++ [c]) g.
 
-(** column.__init__: [if self.area < 0.: self.node.reverse()] -- the sign of the polygon
-    area is taken exactly here (the code computes it in doubles after shifting the polygon
-    to its first vertex) *)
-Definition node_pos (ns : list node) (nm : str) : ex * ex :=
+(** column.__init__: [self.get_area(); if self.area < 0.: self.node.reverse()] with
+    geometry.polygon_area in doubles, operation by operation:
+      polygon = array(positions) - positions[0]          (one rounded subtraction per coordinate)
+      area = 0.0;  for j: area += p1[0] * p2[1] - p2[0] * p1[1]   (two products, a difference, a sum: four roundings)
+      return 0.5 * area
+    and the test [area < 0.] (a negative zero is not < 0) *)
+Definition dy_opp (a : dy) : dy := mkdy (negb (dneg a)) (dm a) (de a).
+Definition dy_sub (a b : dy) : dy := dy_add a (dy_opp b).
+Definition dy_zero : dy := mkdy false 0 0.
+Definition node_pos (ns : list node) (nm : str) : dy * dy :=
   match find (fun n => str_eqb (n_name n) nm) ns with
-  | Some n => (ex_of (n_x n), ex_of (n_y n))
-  | None => ((0, 0), (0, 0))
+  | Some n => (n_x n, n_y n)
+  | None => (dy_zero, dy_zero)
   end.
-Fixpoint cross_sum (first : ex * ex) (pts : list (ex * ex)) : ex :=
+Fixpoint area_sum (first : dy * dy) (pts : list (dy * dy)) (area : dy) : dy :=
   match pts with
-  | [] => (0, 0)
+  | [] => area
   | p :: r => let q := match r with [] => first | q :: _ => q end in
-              ex_add (ex_sub (ex_mul (fst p) (snd q)) (ex_mul (fst q) (snd p))) (cross_sum first r)
+              area_sum first r (dy_add area (dy_sub (dy_mul (fst p) (snd q)) (dy_mul (fst q) (snd p))))
   end.
-Definition area_neg (pts : list (ex * ex)) : bool :=
-  match pts with [] => false | p :: _ => ex_neg (cross_sum p pts) end.
+Definition area_neg (pts : list (dy * dy)) : bool :=
+  match pts with
+  | [] => false
+  | p0 :: _ =>
+      let sh := map (fun p => (dy_sub (fst p) (fst p0), dy_sub (snd p) (snd p0))) pts in
+      let a := dy_mul dy_half (area_sum (dy_sub (fst p0) (fst p0), dy_sub (snd p0) (snd p0)) sh dy_zero) in
+      dneg a && negb (dm a =? 0)
+  end.
 Definition orient (ns : list node) (names : list str) : list str :=
   if area_neg (map (node_pos ns) names) then rev names else names.
 
@@ -581,9 +593,8 @@ Notation wf_body := (wf_body_g readback_ok).
 (** [wf_g fpred]: the header line passes its read-back check; every record value satisfies
     [fpred]; names are distinct after re-justification; referenced nodes/columns exist;
     column polygons are not clockwise; at least one layer; every well has a point *)
-Definition wf_g (fpred : fspec -> value -> bool) (g : geo) : bool :=
+Definition wf_rest (fpred : fspec -> value -> bool) (g : geo) : bool :=
   let h := g_hdr g in
-  hdr_ok h &&
   match unit_scale_of (h_unit h) with
   | Raise _ => false
   | Ok scw =>
@@ -595,4 +606,5 @@ Definition wf_g (fpred : fspec -> value -> bool) (g : geo) : bool :=
       end
     else true
   end.
+Definition wf_g (fpred : fspec -> value -> bool) (g : geo) : bool := hdr_ok (g_hdr g) && wf_rest fpred g.
 Notation wf := (wf_g readback_ok).
